@@ -24,7 +24,12 @@ try:
     subprocess.check_call(["rsync", "-a", "--exclude", "/target", "--exclude", "/.git",
                            "/repo/", str(scratch / "repo") + "/"])
     subprocess.check_call(["git", "apply", str(d / "patch.diff")], cwd=scratch / "repo")
-    if prop in ("C06", "C12"):
+    if prop == "C05" and os.environ.get("MUTCHECK_NOKC"):
+        cmd = ["python3", str(V / "engine/gen5.py"), "check", "--tier", tier, "--no-kc"]
+        detfile = "detection-gen5.json"
+    elif prop in ("C06", "C07", "C11", "C12"):
+        cmd = ["python3", str(V / ("engine/gen%s.py" % prop[1:].lstrip("0"))), "check", "--tier", tier]
+    elif False:
         cmd = ["python3", str(V / ("engine/gen6.py" if prop == "C06" else "engine/gen12.py")), "check", "--tier", tier]
     else:
         cmd = ["python3", str(V / "engine/kc.py"), "check", prop, "--tier", tier]
